@@ -133,12 +133,12 @@ def deviation_programs(moddir_rel):
                                           "d/b.capy": 'up :: #import("../a.capy");\n', "a.capy": a}, True, "200 ", None))
     res.append(("ok/relative-to-importer-not-cwd", {"main.capy": prog('m :: #import("d/b.capy");', 'printf("%ld ", m.n.id);'),
                                                     "d/b.capy": 'n :: #import("a.capy");\n', "d/a.capy": "id :: 777;\n", "a.capy": a}, True, "777 ", None))
-    res.append(("missing", {"main.capy": prog('m :: #import("nope.capy");')}, False, None, "exist"))
-    res.append(("missing-in-subdir", {"main.capy": prog('m :: #import("d/nope.capy");'), "d/x.capy": a}, False, None, "exist"))
+    res.append(("missing", {"main.capy": prog('m :: #import("nope.capy");')}, False, None, "exist|found"))
+    res.append(("missing-in-subdir", {"main.capy": prog('m :: #import("d/nope.capy");'), "d/x.capy": a}, False, None, "exist|found"))
     res.append(("not-dot-capy/existing", {"main.capy": prog('m :: #import("a.txt");'), "a.txt": a}, False, None, r"\.capy"))
     res.append(("not-dot-capy/no-extension", {"main.capy": prog('m :: #import("a");'), "a": a}, False, None, r"\.capy"))
     res.append(("not-dot-capy/suffix-inside", {"main.capy": prog('m :: #import("a.capy.bak");'), "a.capy.bak": a}, False, None, r"\.capy"))
-    res.append(("directory-target", {"main.capy": prog('m :: #import("dir.capy");'), "dir.capy/x.capy": a}, False, None, "exist"))
+    res.append(("directory-target", {"main.capy": prog('m :: #import("dir.capy");'), "dir.capy/x.capy": a}, False, None, "exist|found"))
     res.append(("outside-cwd", {"main.capy": prog('m :: #import("../outside.capy");'), "../outside.capy": a}, False, None, "outside"))
     res.append(("outside-cwd-via-subdir", {"main.capy": prog('m :: #import("d/../../outside.capy");'), "../outside.capy": a, "d/x.capy": a}, False, None, "outside"))
     res.append(("outside-cwd-sibling-with-cwd-prefix", {"main.capy": prog('m :: #import("../w2/a.capy");'), "../w2/a.capy": a}, False, None, "outside"))
@@ -146,10 +146,10 @@ def deviation_programs(moddir_rel):
     res.append(("mod/good", {"main.capy": prog('m :: #mod("good");')}, True, "555 ", None))
     res.append(("mod/core", {"main.capy": prog('m :: #mod("core");', 'printf("%ld ", 1);')}, True, "1 ", None))
     res.append(("mod/no-mod-file", {"main.capy": prog('m :: #mod("nomodfile");')}, False, None, "mod"))
-    res.append(("mod/no-src", {"main.capy": prog('m :: #mod("nosrc");')}, False, None, "mod|exist"))
-    res.append(("mod/missing", {"main.capy": prog('m :: #mod("absent");')}, False, None, "exist|mod"))
+    res.append(("mod/no-src", {"main.capy": prog('m :: #mod("nosrc");')}, False, None, "mod|exist|found"))
+    res.append(("mod/missing", {"main.capy": prog('m :: #mod("absent");')}, False, None, "exist|mod|found"))
     for bad in ("a-b", "a.b", "a/b", "good/", "../good", "go od", ""):
-        res.append((f"mod/non-alphanumeric/{bad!r}", {"main.capy": prog(f'm :: #mod("{bad}");')}, False, None, "alphanumeric"))
+        res.append((f"mod/non-alphanumeric/{bad!r}", {"main.capy": prog(f'm :: #mod("{bad}");')}, False, None, "alphanumeric" if bad else None))
     return res
 
 
